@@ -8,6 +8,7 @@
 mod common;
 mod fes;
 mod prng;
+mod rt;
 
 use common::*;
 use serde::{Deserialize, Serialize};
@@ -21,25 +22,33 @@ use std::sync::atomic::{AtomicU64, Ordering};
 pub enum Program {
     #[serde(rename = "fes")]
     Fes(fes::FesProgram),
-}
-
-pub fn engine_of(prop: &str) -> &'static str {
-    match prop {
-        "C01" | "C03" | "C15" => "fes",
-        _ => "fes",
-    }
+    #[serde(rename = "rt")]
+    Rt(rt::RtProgram),
 }
 
 pub fn generate(prop: &str, seed: u64, tier: Tier) -> Program {
     let mut rng = prng::Rng::new(seed);
-    match engine_of(prop) {
-        _ => Program::Fes(fes::generate(prop, &mut rng, tier)),
+    match prop {
+        "C01" | "C15" => Program::Fes(fes::generate(prop, &mut rng, tier)),
+        "C03" => {
+            if rng.chance(1, 2) {
+                Program::Fes(fes::generate(prop, &mut rng, tier))
+            } else {
+                Program::Rt(rt::generate(prop, &mut rng, tier))
+            }
+        }
+        "C02" | "C10" | "C11" => Program::Rt(rt::generate(prop, &mut rng, tier)),
+        _ => {
+            eprintln!("dsim: no engine for property {prop}");
+            std::process::exit(2);
+        }
     }
 }
 
 pub fn execute(prop: &str, prog: &Program) -> RunInfo {
     match prog {
         Program::Fes(p) => fes::execute(p, prop),
+        Program::Rt(p) => rt::execute(p, prop),
     }
 }
 
